@@ -3,6 +3,7 @@ package c20
 
 import (
 	"bytes"
+	crand "crypto/rand"
 	"encoding/json"
 	"errors"
 	"fmt"
@@ -181,10 +182,15 @@ func TestExhaustive(t *testing.T) {
 // ---------------------------------------------------------------- IdGenerator
 
 type idgenCase struct {
-	RandBit int
-	AgoMs   int64
-	N       int
+	RandBit  int
+	AgoMs    int64
+	N        int
+	FailRand bool // crypto/rand.Reader fails: the generator must fall back and still produce well-formed ids
 }
+
+type failingReader struct{}
+
+func (failingReader) Read([]byte) (int, error) { return 0, errors.New("injected entropy failure") }
 
 func genIdgen(t *rapid.T) idgenCase {
 	var ago int64
@@ -196,7 +202,7 @@ func genIdgen(t *rapid.T) idgenCase {
 	default:
 		ago = rapid.SampledFrom([]int64{0, 1, 1 << 31, 1<<32 - 1, 1 << 32, 1 << 40, 60 * 365 * 24 * 3600 * 1000}).Draw(t, "ago")
 	}
-	return idgenCase{RandBit: rapid.IntRange(-3, 40).Draw(t, "randBit"), AgoMs: ago, N: rapid.IntRange(1, 4).Draw(t, "n")}
+	return idgenCase{RandBit: rapid.IntRange(-3, 40).Draw(t, "randBit"), AgoMs: ago, N: rapid.IntRange(1, 4).Draw(t, "n"), FailRand: rapid.IntRange(0, 3).Draw(t, "failRand") == 0}
 }
 
 func runIdgen(c idgenCase, r *pb.Rec) error {
@@ -206,6 +212,11 @@ func runIdgen(c idgenCase, r *pb.Rec) error {
 	}
 	if eff > 22 {
 		eff = 22
+	}
+	if c.FailRand {
+		old := crand.Reader
+		crand.Reader = failingReader{}
+		defer func() { crand.Reader = old }()
 	}
 	start := time.Now().Add(-time.Duration(c.AgoMs) * time.Millisecond)
 	gen := randz.NewIdGenerator(start, c.RandBit)
@@ -234,6 +245,7 @@ func runIdgen(c idgenCase, r *pb.Rec) error {
 		}
 	}
 	r.NonTrivialIf(c.RandBit != 16 && c.AgoMs > 0)
+	r.ClassIf(c.FailRand, "entropy source fails (fallback path)")
 	r.ClassIf(c.RandBit <= 1, "randBit<=1")
 	r.ClassIf(c.RandBit > 22, "randBit>22")
 	r.ClassIf(c.AgoMs >= 1<<32, "elapsed>=2^32ms")
@@ -446,7 +458,7 @@ func init() {
 		}
 		return runParse(c, &pb.Rec{})
 	})
-	pb.Register("idgen", pb.Options{Base: 150, Required: []string{"randBit<=1", "randBit>22"}, Rule: "randBit -3..40, start time up to 60 years ago, 1-4 ids with clock-bracketed >=1ms gaps; non-trivial = non-default randBit and non-zero elapsed time"}, genIdgen, runIdgen)
+	pb.Register("idgen", pb.Options{Base: 150, Required: []string{"randBit<=1", "randBit>22", "entropy source fails (fallback path)"}, Rule: "randBit -3..40, start time up to 60 years ago, 1-4 ids with clock-bracketed >=1ms gaps; non-trivial = non-default randBit and non-zero elapsed time"}, genIdgen, runIdgen)
 	pb.Register("strgen", pb.Options{Base: 8000, Required: []string{"charset size not a power of two", "multi-byte charset", "n=0"}, Rule: "duplicate-free charsets of sizes around powers of two (1..70 runes, ASCII or mixed width), n 0..200, PRNG source optionally preceded by adversarial words; non-trivial = n>0 and charset size not a power of two"}, genStrgen, runStrgen)
 	pb.Register("package_defaults", pb.Options{Base: 3000, Required: []string{"default charset replaced"}, Rule: "randz.String(n) with the default and replaced default charsets (SetStrGeneratorCharSet), randz.Id() bracketed by clock reads against the default start time, Base32 round trip of generated ids; non-trivial = n > 0"}, genDef, runDef)
 	pb.Register("countgen", pb.Options{Base: 8000, Required: []string{"elapsed on a rule boundary"}, Rule: "1-5 rules with positive parameters, elapsed times on every rule boundary ±2 and drawn in between; non-trivial = >= 2 rules and a boundary probed"}, genCount, runCount)
